@@ -306,13 +306,13 @@ func init() {
 	}
 
 	registry["C02"] = &Check{
-		Rule:          "(a) RingQueue as a rapid state machine against a Go-slice FIFO: initial size in {1..9,256}, push/pop ratio drawn per case, bursts up to 2x capacity, Pop / PopMany(n) / Length / Empty after every step; plus the exhaustive enumeration of every (initial size 1-9, pushed-before 0..2s+1, popped-before 0..pushed) boundary case pushed through two growths; (b) 2-8 real producer threads x 100-20000 items against the single consumer under -race; (c) runtime: 1-4 senders (goroutines or actors, sequential or concurrent) with bursts drawn around every growth boundary of the 256-slot mailbox ring (254..257, 511..513, 1023, 1025, 2049, 5000, +-1) into a target blocked in its first handler, one sender killing the target (poison or immediate) after a drawn number of its sends and sending on; stash scripts of 2-30 messages (Stash, Unstash(), Unstash(n) incl. n <= 0 and n > count) against a queue+stash reference model. Oracle: model equality (a, stash), per-producer order + multiset (b), per-sender order, exactly-once-or-dead-letter, nothing handled after OnKill, immediate kill overtakes all queued mail, poison kill after everything its sender enqueued before it (c). Non-trivial = growth while the content is wrapped (a), every concurrent round (b), a grown ring or a kill with >= 2 queued messages (c), a partial Unstash(1 < n < count). Distinct = hash of the case.",
+		Rule:          "(a) RingQueue as a rapid state machine against a Go-slice FIFO: initial size in {1..9,256}, push/pop ratio drawn per case, bursts up to 2x capacity, Pop / PopMany(n) / Length / Empty after every step; plus the exhaustive enumeration of every (initial size 1-9, pushed-before 0..2s+1, popped-before 0..pushed) boundary case pushed through two growths; (b) 2-8 real producer threads x 100-20000 items against the single consumer under -race; (c) runtime: 1-4 senders (goroutines or actors, sequential or concurrent) with bursts drawn around every growth boundary of the 256-slot mailbox ring (254..257, 511..513, 1023, 1025, 2049, 5000, +-1) into a target blocked in its first handler, one sender killing the target (poison or immediate) after a drawn number of its sends and sending on; stash scripts of 2-30 messages (Stash, Unstash(), Unstash(n) incl. n <= 0 and n > count) against a queue+stash reference model. Oracle: model equality (a, stash), per-producer order + multiset (b), per-sender order, exactly-once-or-dead-letter, nothing handled after OnKill, immediate kill overtakes all queued mail, poison kill after everything its sender enqueued before it (c). Non-trivial = growth while the content is wrapped (a), every concurrent round (b), a grown ring or a kill with >= 2 queued messages (c), a partial Unstash(1 < n < count). Distinct = hash of the case. A quarter of the stash scripts' messages are delivered by the scheduler (Once, delay 0, settled) instead of Tell. System-first unit: a supervisor that kills itself immediately from its handler of a child's OnKilled, with 1-6 user messages already waiting: none of them is handled, all are dead letters.",
 		Assumptions:   []string{"the ring has exactly one consumer (the mailbox's contract); size 0 is outside the domain (division by zero; the only caller passes 256)"},
 		ExhaustiveKey: "ring boundary enumeration: all (size 1-9, pushed-before, popped-before) cases",
 		Units: []Unit{
 			{Name: "ring", Pkg: "c02", Run: "^(TestC02RingModel|TestC02RingBoundaries)$", QuickChecks: 8000, ThoroughChecks: 200000, ThoroughShards: 8},
 			{Name: "ringmt", Pkg: "c02", Run: "^TestC02RingConcurrent$", Race: true, QuickTimeout: 10 * time.Minute, ThoroughTimeout: 40 * time.Minute},
-			{Name: "order", Pkg: "c02", Run: "^(TestC02Order|TestC02Stash)$", QuickChecks: 1500, ThoroughChecks: 20000, ThoroughShards: 12, CaseFile: true, CrashOracle: "no-crash"},
+			{Name: "order", Pkg: "c02", Run: "^(TestC02Order|TestC02Stash|TestC02SystemFirst)$", QuickChecks: 1500, ThoroughChecks: 20000, ThoroughShards: 12, CaseFile: true, CrashOracle: "no-crash"},
 		},
 	}
 
